@@ -17,12 +17,12 @@ func TestDbgChain(t *testing.T) {
 		c = genChainCase(rng)
 	}
 	if f := os.Getenv("DBG_JSON"); f != "" {
-		_ = json.Unmarshal([]byte(f), &c)
+		c = chainCase{}; _ = json.Unmarshal([]byte(f), &c)
 	}
 	want := refChainE2E(c)
 	b, _ := json.Marshal(c)
 	t.Logf("case %s", b)
 	t.Logf("want %+v", want)
-	ob, err := runChainCase(c, want)
+	ob, err := runChainCase(c, 12)
 	t.Logf("obs %+v err=%v", ob, err)
 }
